@@ -875,3 +875,83 @@ N('n_while_let_to_loop', ALL, 'while-let loop written as loop + match',
                 None => break,
             }
         }'''))
+N('n_new_public_getter', ALL, 'a new public read-only accessor is added',
+  (LIB, '''    /// Getter for the current identity.
+    pub const fn identity(&self) -> &T {
+        &self.identity
+    }''', '''    /// Getter for the current identity.
+    pub const fn identity(&self) -> &T {
+        &self.identity
+    }
+
+    /// Getter for the current configuration.
+    pub const fn current_config(&self) -> &Config {
+        &self.config
+    }
+
+    /// Whether this instance is currently probing.
+    pub fn is_connected(&self) -> bool {
+        self.connection_state == ConnectionState::Connected
+    }'''))
+N('n_match_arms_reordered', ALL, 'match arms of handle_timer reordered (RemoveDown first)',
+  (LIB, '''        match event {
+            Timer::SendIndirectProbe { probed_id, token } => {''', '''        match event {
+            Timer::RemoveDown(down) => {
+                if let Some(_removed) = self.members.remove_if_down(&down) {}
+
+                Ok(())
+            }
+            Timer::SendIndirectProbe { probed_id, token } => {'''),
+  (LIB, '''            Timer::RemoveDown(down) => {
+                if let Some(_removed) = self.members.remove_if_down(&down) {
+                    #[cfg(feature = "tracing")]
+                    tracing::trace!(down = tracing::field::debug(&down), "Member removed");
+                }
+
+                Ok(())
+            }
+            Timer::ProbeRandomMember(token) => {''', '''            Timer::ProbeRandomMember(token) => {'''))
+N('n_for_to_while', ALL, 'the member-decoding for loop written as a while loop',
+  (LIB, '''            for _i in 0..num_updates {
+                self.updates_buf.push(
+                    self.codec
+                        .decode_member(&mut data)
+                        .map_err(|e| Error::Decode(Box::new(e)))?,
+                );
+            }''', '''            let mut left = num_updates;
+            while left > 0 {
+                left -= 1;
+                self.updates_buf.push(
+                    self.codec
+                        .decode_member(&mut data)
+                        .map_err(|e| Error::Decode(Box::new(e)))?,
+                );
+            }'''))
+N('n_question_mark_to_match', ALL, '`?` replaced by an explicit match',
+  (LIB, '''        let mut buf = Vec::new();
+        self.codec
+            .encode_member(&member, &mut buf)
+            .map_err(|e| Error::Encode(Box::new(e)))?;
+
+        Ok(buf)''', '''        let mut buf = Vec::new();
+        match self.codec.encode_member(&member, &mut buf) {
+            Ok(()) => Ok(buf),
+            Err(e) => Err(Error::Encode(Box::new(e))),
+        }'''))
+N('n_if_let_to_match', ALL, 'if-let written as match',
+  (LIB, '''        if let member::ConflictResult::Replaced(old) = summary.conflict {
+            #[cfg(feature = "tracing")]
+            tracing::debug!(
+                previous_id = tracing::field::debug(&old),
+                member_id = tracing::field::debug(&id),
+                "Renamed"
+            );
+            runtime.notify(Notification::Rename(&old, &id));
+        }''', '''        match summary.conflict {
+            member::ConflictResult::Replaced(old) => {
+                runtime.notify(Notification::Rename(&old, &id));
+            }
+            _ => {}
+        }'''))
+N('n_vec_with_capacity', ALL, 'empty vectors created with with_capacity(0)',
+  (LIB, '            members: Members::new(Vec::new()),', '            members: Members::new(Vec::with_capacity(0)),'))
